@@ -44,6 +44,17 @@ def linesGo : Bytes → Bytes → List Bytes
 
 def lines (b : Bytes) : List Bytes := linesGo [] b
 
+/-- `strings.SplitAfter(s, "\n")`: the pieces of `s`, each ending after a newline; never empty
+(`SplitAfter("", "\n") = [""]`, and a text that ends in a newline has a final empty piece).  Library meaning
+used by the Go→Lean translation of `lines` (GIV.Gen.DiffGo). -/
+def splitAfterNL : Bytes → List Bytes
+  | [] => [[]]
+  | b :: rest =>
+    if b = NL then [NL] :: splitAfterNL rest else
+    match splitAfterNL rest with
+    | h :: t => (b :: h) :: t
+    | [] => [[b]]
+
 /-- The text of one element of `lines`: up to and including the first '\n' when the line is a
 complete one, the part before it when the line carries the missing-newline warning. -/
 def unline (l : Bytes) : Bytes :=
